@@ -260,6 +260,23 @@ class Guards:
         l, proj = place
         if not proj:
             return self.fn.local_ty(l)
+        # a field of a tuple local: `match (a.next(), b.next()) { (Some(x), Some(y)) => .. }`
+        ty = self.fn.local_ty(l) or ""
+        if len(proj) == 1 and isinstance(proj[0], tuple) and proj[0][0] == "f" and ty.startswith("(") and ty.endswith(")"):
+            parts, depth, cur = [], 0, ""
+            for ch in ty[1:-1]:
+                if ch in "<([":
+                    depth += 1
+                elif ch in ">)]":
+                    depth -= 1
+                if ch == "," and depth == 0:
+                    parts.append(cur.strip()); cur = ""
+                else:
+                    cur += ch
+            if cur.strip():
+                parts.append(cur.strip())
+            if proj[0][1] < len(parts):
+                return parts[proj[0][1]]
         return None
 
     def facts(self):
